@@ -337,12 +337,16 @@ def c09(lines, out):
     tr = Trace(lines, out)
     v = common(tr)
     sets = {}     # handle -> {'fd': {key: oneshot}, 'tmr': {...}, 'sub': {...}}
+    last = {}     # handle -> last state seen
 
     def S(h):
         return sets.setdefault(h, {'fd': {}, 'tmr': {}, 'sub': {}})
     for kind, inv, r in tr.events:
         if kind == 'I':
             cb, hd, h, stt, evs = parse_invoke(inv)
+            if (stt in ('S', 'Z') and last.get(h) not in ('S', 'Z')) or cb == 'on_stop':   # on_stop runs right after the sources were dropped
+                sets[h] = {'fd': {}, 'tmr': {}, 'sub': {}}      # the stop transition drops every source
+            last[h] = stt
             if cb == 'on_evt' and r.op.split()[0] != 'unstash':
                 for k, f in evs:
                     if k == 'fd' and S(h)['fd'].get(f[0][1:]) == 'o': del S(h)['fd'][f[0][1:]]
@@ -376,8 +380,12 @@ def c09(lines, out):
         if r.dump:
             _, mods = parse_dump(r.dump)
             for h, m in mods.items():
-                if m['state'] in ('S', 'Z'):
+                # registering on a stopped module is allowed: only the transition drops the sources
+                if m['state'] in ('S', 'Z') and last.get(h) not in ('S', 'Z'):
                     sets[h] = {'fd': {}, 'tmr': {}, 'sub': {}}
+                last[h] = m['state']
+            for h in [h for h in last if h not in mods]:
+                del last[h]; sets.pop(h, None)
         if t[0] == 'srclen' and int(res) >= 0:
             s = S(t[1])
             exp = len(s['fd']) + len(s['tmr']) + len(s['sub'])
